@@ -29,7 +29,10 @@ RULE = ('Hypothesis draws 1-3 mutually independent resources (distinct lexicon i
         'of 15 supply routes (stratified over shards so every route is hit in every tier). '
         'Oracle: in a fresh database the route yields the same logical table dump and the same '
         'public-API observation as adding the plain XML files one by one (after the first round '
-        'and at the fixed point of repeated adds); a further add of installed lexicons leaves the '
+        'and at the fixed point of repeated adds), and files holding several lexicons reach the '
+        'same fixed point as one plain XML file per lexicon (shapes constructed: another version '
+        'of a lexicon in a file of its own; a base alone followed by a file with its extension '
+        'and another version of the base); a further add of installed lexicons leaves the '
         'raw table dump unchanged; an extension whose base is absent leaves it unchanged; SHA-256 '
         'of all input files and the in-memory resource are unchanged. Non-trivial: route != xml; '
         'distinct by (documents, route).')
@@ -69,6 +72,21 @@ def _cases(draw, route=None, versions=None, max_entries=3):
             resources.insert(where, {'lmf_version': resources[0]['lmf_version'],
                                      'lexicons': [sib]})
             styles.insert(where, draw(xmlw.styles()))
+    elif draw(st.integers(0, 2)) == 0:
+        # a base alone in one file; the next file holds its extension followed by another version
+        # of the base (the ids the extension treats as external are that lexicon's own ids)
+        for k, res in enumerate(resources):
+            plain = [lx for lx in res['lexicons'] if not lx.get('extends')]
+            exts = [lx for lx in res['lexicons'] if lx.get('extends')]
+            if len(plain) == 1 and exts and exts[0]['extends']['id'] == plain[0]['id'] \
+                    and res['lmf_version'] != '1.0':
+                sib = copy.deepcopy(plain[0])
+                sib['version'] = plain[0]['version'] + draw(st.sampled_from(['.b', '-0', 'z']))
+                resources[k] = {'lmf_version': res['lmf_version'], 'lexicons': plain}
+                resources.insert(k + 1, {'lmf_version': res['lmf_version'],
+                                         'lexicons': exts + [sib]})
+                styles.insert(k + 1, draw(xmlw.styles()))
+                break
     orphan = draw(st.booleans())
     return {'resources': resources, 'styles': styles, 'route': route, 'orphan_extension': orphan}
 
@@ -89,6 +107,9 @@ def _classify(case):
             tags.append('base+extension-in-one-file')
         if len(r['lexicons']) > 1:
             tags.append('multi-lexicon-file')
+        kinds = ''.join('x' if lx.get('extends') else 'p' for lx in r['lexicons'])
+        if 'xp' in kinds:
+            tags.append('extension-then-plain-lexicon-in-one-file')
     ids = [lx['id'] for r in case['resources'] for lx in r['lexicons']]
     if len(set(ids)) < len(ids):
         tags.append('two-versions-of-one-id')
@@ -257,6 +278,16 @@ def _check_installed(case, states, out, label):
     whose id:version is installed is skipped, an extension whose base is not installed (before
     the call) is skipped, every other lexicon of the resource is added."""
     ref = RefDB()
+    if not _ordered(case, label):
+        # the packages of a collection are read in directory order, which the property leaves
+        # open: with an extension whose base sits in another package only the fixed point is fixed
+        for _ in range(len(case['resources']) + 1):
+            for res in case['resources']:
+                ref.add_resource(res)
+        if sorted(ref.installed()) != states[-1]['installed']:
+            out.append(Disc('installed-set-not-as-documented', f'{label} fixed point',
+                            sorted(ref.installed()), states[-1]['installed']))
+        return
     for rnd, stt in enumerate(states):
         for res in case['resources']:
             ref.add_resource(res)
@@ -264,6 +295,20 @@ def _check_installed(case, states, out, label):
             out.append(Disc('installed-set-not-as-documented', f'{label} round {rnd + 1}',
                             sorted(ref.installed()), stt['installed']))
             return
+
+
+def _ordered(case, route) -> bool:
+    """False if the outcome of a single round may depend on the order in which the route hands
+    over the resources (a collection) because one resource extends a lexicon of another."""
+    if 'collection' not in route:
+        return True
+    for res in case['resources']:
+        own = {(lx['id'], lx['version']) for lx in res['lexicons']}
+        for lx in res['lexicons']:
+            x = lx.get('extends')
+            if x and (x['id'], x['version']) not in own:
+                return False
+    return True
 
 
 def oracle(case):
@@ -286,6 +331,29 @@ def oracle(case):
     _check_installed(case, base_states, out, 'xml')
     if out:
         return out
+    if any(len(r['lexicons']) > 1 for r in case['resources']):
+        # the same lexicons, one plain XML file each: what a lexicon contributes does not depend
+        # on its neighbours in the file (which lexicons a round installs does - the skip rule -
+        # so the fixed points are compared)
+        split_dir = work / 'split'
+        split_dir.mkdir()
+        singles = []
+        for k, (res, style) in enumerate(zip(case['resources'], case['styles'])):
+            for j, lx in enumerate(res['lexicons']):
+                one = {'lmf_version': res['lmf_version'], 'lexicons': [lx]}
+                singles.append(xmlw.write(one, work / f's{k}-{j}.xml', style))
+        split_states = _run_route('xml', singles, split_dir, out, 'one-lexicon-per-file')
+        a, b = split_states[-1], base_states[-1]
+        if a['installed'] != b['installed']:
+            out.append(Disc('installed-set-differs', 'one-lexicon-per-file',
+                            a['installed'], b['installed']))
+        else:
+            for p, e, g in diff(a['logical'], b['logical'])[:5]:
+                out.append(Disc('tables-differ-from-one-lexicon-per-file', f'final{p}', e, g))
+            for p, e, g in diff(a['api'], b['api'])[:5]:
+                out.append(Disc('api-differs-from-one-lexicon-per-file', f'final{p}', e, g))
+        if out:
+            return out
     route = case['route']
     if route != 'xml':
         states = _run_route(route, xmls, route_dir, out, route)
@@ -293,6 +361,8 @@ def oracle(case):
         # round 1 and fixed point
         for name, a, b in (('round1', base_states[0], states[0]),
                            ('final', base_states[-1], states[-1])):
+            if name == 'round1' and not _ordered(case, route):
+                continue
             if a['installed'] != b['installed']:
                 out.append(Disc('installed-set-differs', name, a['installed'], b['installed']))
                 continue
@@ -436,7 +506,8 @@ SUBS = [
         fingerprint=_fp, sample=_sample,
         require_tags=tuple('route:' + r for r in ROUTES)),
     Sub('routes-random', oracle, _classify, strategy=_strategy,
-        budget={'quick': 30, 'thorough': 400}, fingerprint=_fp, sample=_sample),
+        budget={'quick': 30, 'thorough': 400}, fingerprint=_fp, sample=_sample,
+        require_tags=('extension-then-plain-lexicon-in-one-file', 'two-versions-of-one-id')),
     # LMF 1.0 only (frames sit on entries and share lists with the caller's resource if the
     # reader is careless), more entries, supplied in memory or as a plain file
     Sub('frames-1.0', oracle, _classify,
